@@ -1093,6 +1093,10 @@ var c18Bodies = [][]byte{
 	[]byte("203.0.113.7"), []byte(" 203.0.113.7\n"), []byte("\t198.51.100.23\r\n"), []byte("2001:db8::17\n"),
 	[]byte("  2001:DB8:0:0:8:800:200C:417A "), []byte("::ffff:192.0.2.1"), []byte(" 192.0.2.55 \n"),
 	[]byte("::1"), []byte("64:ff9b::192.0.2.33\n"),
+	// the longest texts an address can have: 45 characters (mixed notation, nothing compressed), and
+	// a full 39-character IPv6 address behind leading white space
+	[]byte("0000:0000:0000:0000:0000:ffff:203.100.113.200"), []byte("\r\n2001:0db8:0000:0000:0000:0000:0000:00a1"),
+	[]byte("  ffff:ffff:ffff:ffff:ffff:ffff:255.255.255.255\n"), []byte("ffff:ffff:ffff:ffff:ffff:ffff:ffff:ffff\r\n"),
 	[]byte(""), []byte("   \n"), []byte("<html><body>blocked</body></html>"), []byte("1.2.3"), []byte("1.2.3.4.5"),
 	[]byte("256.1.1.1"), []byte("01.2.3.4"), []byte("1.2.3.4 5.6.7.8"), []byte("fe80::1%eth0"), []byte("1.2.3.4\x00"),
 	[]byte("12345::"), []byte("1::2::3"), []byte("ip=1.2.3.4"), []byte("\xff\xfe1.2.3.4"), []byte("1.2.3.4\xc2"),
@@ -1110,7 +1114,7 @@ func c18GenAttempt(r *hx.RNG, long bool) c18Attempt {
 	default:
 		a.Kind, a.Status, a.Body = 'r', hx.Pick(r, c18Statuses), hx.Pick(r, c18Bodies)
 		if r.Chance(3, 5) { // mostly addresses, so that retries and successes are common
-			a.Body = c18Bodies[r.Intn(9)]
+			a.Body = c18Bodies[r.Intn(13)]
 		}
 		if a.Status >= 400 && r.Chance(1, 4) {
 			a.RetryAfter = hx.Pick(r, []string{"0", "1", "2", "120", "Wed, 21 Oct 2026 07:28:00 GMT", "soon"})
